@@ -181,7 +181,8 @@ Allowed(cfg, s, a, out) ==
            ELSE "ok"
       [] a.op = "mark_used" -> IF Pos(c, a.idx) \in s.keys THEN "ok" ELSE "unknown-key-marked-used"
       [] a.op = "export" ->         \* out: the position (net, wt, account of the exported key, 0, 0)
-           IF Len(out) # 1 \/ out[1].net # a.net \/ out[1].wt # a.wt \/ out[1].acct # a.acct THEN "account-key-of-another-account-exported"
+           \* (the top key of a wallet made from an account key keeps the witness-type label of the key it was made from)
+           IF Len(out) # 1 \/ out[1].net # a.net \/ (~cfg.watch /\ out[1].wt # a.wt) \/ out[1].acct # a.acct THEN "account-key-of-another-account-exported"
            ELSE "ok"
       [] a.op = "reopen" -> "ok"
       [] a.op = "set_default" -> IF Acct(a.net, a.wt, a.acct) \in s.accts THEN "ok" ELSE "unknown-account-made-default"
